@@ -422,4 +422,68 @@ theorem countIn_sublist {as bs : List Int} (h : as.Sublist bs) (t T : Int) :
   unfold Spec.countIn
   exact (h.filter _).length_le
 
+/-! ## The handler with a bounded wait and combined series (`runQTasks`) -/
+
+theorem waitCtx_none_state (l : Lim) (s s' : LState) (t : Int) (d : Option Int)
+    (h : waitCtx l s t d = (s', none)) : s' = s := by
+  unfold waitCtx at h
+  cases hr : reserve l s t with
+  | mk s1 g =>
+    rw [hr] at h
+    cases g with
+    | none => simp at h; exact h.symm
+    | some g =>
+      cases d with
+      | none => simp at h
+      | some d =>
+        by_cases hd : g - t ≤ d
+        · simp [hd] at h
+        · simp [hd] at h; exact h.symm
+
+theorem waitCtx_some_reserve (l : Lim) (s s' : LState) (t g : Int) (d : Option Int)
+    (h : waitCtx l s t d = (s', some g)) : reserve l s t = (s', some g) := by
+  unfold waitCtx at h
+  cases hr : reserve l s t with
+  | mk s1 g1 =>
+    rw [hr] at h
+    cases g1 with
+    | none => simp at h
+    | some g1 =>
+      cases d with
+      | none => simpa using h
+      | some d =>
+        by_cases hd : g1 - t ≤ d
+        · simpa [hd] using h
+        · simp [hd] at h
+
+/-- The process starts of any list of handler calls — waits with any deadlines, failed or not, series
+of any length — are a sublist of the limiter's grants for the request times of the calls whose wait
+succeeded (a failed wait takes no token and starts nothing). -/
+theorem runQTasks_sublist (l : Lim) (s : LState) (qs : List QTask) :
+    ∃ ts : List Int, ts.Sublist (qs.map (·.task.t)) ∧ (runQTasks l s qs).Sublist (grants l s ts) := by
+  induction qs generalizing s with
+  | nil => exact ⟨[], by simp, by simp [runQTasks, grants]⟩
+  | cons q qs ih =>
+    cases hw : waitCtx l s q.task.t q.deadline with
+    | mk s' g =>
+      cases g with
+      | none =>
+        have hs := waitCtx_none_state l s s' q.task.t q.deadline hw
+        subst hs
+        obtain ⟨ts, h1, h2⟩ := ih s'
+        refine ⟨ts, ?_, ?_⟩
+        · simpa using List.Sublist.cons q.task.t h1
+        · simpa [runQTasks, handleHookRunQ, hw] using h2
+      | some g =>
+        have hr := waitCtx_some_reserve l s s' q.task.t g q.deadline hw
+        obtain ⟨ts, h1, h2⟩ := ih s'
+        refine ⟨q.task.t :: ts, ?_, ?_⟩
+        · simpa using List.Sublist.cons_cons q.task.t h1
+        · simp only [runQTasks, handleHookRunQ, hw, grants, hr]
+          by_cases hc : q.task.kind = .synchronization ∧ q.task.runOnSync = false
+          · simp only [hc, and_self, if_true, List.nil_append]
+            exact List.Sublist.cons _ h2
+          · simp only [hc, if_false, handleRunHookN, hookRun, List.singleton_append]
+            exact List.Sublist.cons_cons _ h2
+
 end ShellOp.RateLimit
